@@ -333,9 +333,9 @@ class Engine:
             self.variant_owner = {}   # variant name -> [enum full paths]
             self._index()
             self._scan_enums()
-            Engine._index_cache[ck] = (self.alias, self.closures, self.enums, self.variant_owner, self.lazy)
+            Engine._index_cache[ck] = (self.alias, self.closures, self.enums, self.variant_owner, self.lazy, self.impls)
         else:
-            self.alias, self.closures, self.enums, self.variant_owner, self.lazy = cached
+            self.alias, self.closures, self.enums, self.variant_owner, self.lazy, self.impls = cached
         self.solver = z3.Solver()
         self.solver.set('timeout', query_timeout_ms)
         self.stats = dict(paths=0, queries=0, stmts=0, solver_s=0.0, calls=0)
@@ -357,6 +357,7 @@ class Engine:
     # ------------------------------------------------------------ indexing
     def _index(self):
         self.lazy = {}
+        self.impls = {}           # (trait short name, method) -> [(fn name, self type text, module prefix)]
         for name, f in self.funcs.items():
             if name.split('#')[0].endswith('deref::__static_ref_initialize') and f.file and f.src_line:
                 for root in self.srcroots:
@@ -391,6 +392,8 @@ class Engine:
                         if trait:
                             tr_short = re.sub(r'<.*>', '', trait).split('::')[-1]
                             self.alias.setdefault('<%s as %s>::%s' % (ty_short, tr_short, meth), name)
+                            if '::' not in meth and f.params:
+                                self.impls.setdefault((tr_short, meth), []).append((name, f.params[0][1], prefix.rstrip(':')))
                         else:
                             self.alias.setdefault('%s::%s' % (ty_short, meth), name)
                     elif '#[derive(' in src:
@@ -404,6 +407,8 @@ class Engine:
                                 break
                         if tr_short and ty_short:
                             self.alias.setdefault('<%s as %s>::%s' % (ty_short, tr_short, meth), name)
+                            if '::' not in meth and f.params:
+                                self.impls.setdefault((tr_short, meth), []).append((name, f.params[0][1], prefix.rstrip(':')))
             if f.params:
                 t0 = f.params[0][1]
                 for pre in ('&mut ', '&', ''):
@@ -462,6 +467,86 @@ class Engine:
             raise Unsupported('unknown enum layout %s::%s' % (v.ty, v.variant))
         return e[1].index(v.variant)
 
+    @staticmethod
+    def _split_type(t):
+        t = t.strip()
+        while True:
+            if t.startswith('&mut '):
+                t = t[5:].strip()
+            elif t.startswith('&'):
+                t = re.sub(r"^&('\w+ )?", '', t).strip()
+            else:
+                break
+        if t.startswith('[') and t.endswith(']'):
+            parts = split_top(t[1:-1], ';')
+            return '[]', [p.strip() for p in parts]
+        if t.startswith('(') and t.endswith(')'):
+            return '()', split_top(t[1:-1])
+        k = t.find('<')
+        if k < 0 or not t.endswith('>'):
+            return t.split('::')[-1], []
+        return t[:k].split('::')[-1], split_top(t[k + 1:-1])
+
+    @classmethod
+    def type_match(cls, pattern, concrete_t):
+        """does the (possibly generic) impl self type `pattern` match the concrete type text?"""
+        pattern = pattern.strip()
+        pp = re.sub(r"^&(mut )?('\w+ )?", '', pattern).strip()
+        if re.fullmatch(r'[A-Z][0-9]?', pp):
+            return True
+        pn, pa = cls._split_type(pattern)
+        cn, ca = cls._split_type(concrete_t)
+        if pn != cn or len(pa) != len(ca):
+            return False
+        return all(cls.type_match(x, y) for x, y in zip(pa, ca))
+
+    def value_matches_type(self, v, t, fr=None):
+        """rough runtime check used to pick between impls for the same type constructor"""
+        v = self.deref(v, fr)
+        while isinstance(v, Cell):
+            v = v.v
+        tn, ta = self._split_type(t)
+        if re.fullmatch(r'[A-Z][0-9]?', tn):
+            return True
+        if isinstance(v, (Struct, Enum)):
+            name = v.ty.split('::')[-1]
+            if name == '()' or tn == '()':
+                return name == tn and len(v.fields) == len(ta) if tn == '()' else False
+            if name != tn:
+                return False
+            if len(ta) == len(v.fields) and ta:
+                return all(self.value_matches_type(f_, a_, fr) for f_, a_ in zip(v.fields, ta))
+            return True
+        if isinstance(v, Opaque):
+            return v.what.split('::')[-1] == tn or (v.what == '()' and tn == '()')
+        if isinstance(v, (Vec, Slice)):
+            return tn in ('[]', 'str', 'Vec', 'String')
+        if isinstance(v, Int):
+            return tn in INT_TYPES
+        return True
+
+    def find_impl(self, type_text, trait_text, method, recv=None, fr=None):
+        tr_short = re.sub(r'<.*>', '', trait_text).split('::')[-1]
+        cands = self.impls.get((tr_short, method), [])
+        if not cands:
+            return None
+        tmod = '::'.join(re.sub(r'<.*>', '', trait_text).split('::')[:-1])
+        if tmod:
+            same = [c for c in cands if c[2].endswith(tmod)]
+            if same:
+                cands = same
+        if type_text is not None and not re.fullmatch(r'[A-Z][0-9]?', type_text.strip()) and not type_text.startswith('dyn '):
+            m_ = [c for c in cands if self.type_match(c[1], type_text)]
+            if len(m_) == 1:
+                return m_[0][0]
+            if m_:
+                cands = m_
+        if recv is not None:
+            m_ = [c for c in cands if self.value_matches_type(recv, c[1], fr)]
+            if len(m_) == 1:
+                return m_[0][0]
+        return cands[0][0] if len(cands) == 1 else None
+
     def resolve(self, callee):
         if callee.startswith('<'):
             depth, j = 0, 0
@@ -485,12 +570,30 @@ class Engine:
             if cand in self.alias:
                 return self.alias[cand]
         m = re.match(r'^<(.+) as (.+)>::(\w+)$', c)
+        if m and not m.group(1).startswith('&'):
+            depth_, cut_ = 0, None
+            inner = c[1:c.rindex('>::')]
+            for j_ in range(len(inner) - 3):
+                ch_ = inner[j_]
+                if ch_ in '<([':
+                    depth_ += 1
+                elif ch_ in ')]' or (ch_ == '>' and inner[j_ - 1] not in '-='):
+                    depth_ -= 1
+                elif depth_ == 0 and inner.startswith(' as ', j_):
+                    cut_ = j_
+                    break
+            if cut_ is not None:
+                hit = self.find_impl(inner[:cut_], inner[cut_ + 4:], m.group(3))
+                if hit is not None:
+                    return hit
         if m:
             t, tr, me = m.groups()
             t = re.sub(r'<.*>', '', t)
             tr = re.sub(r'<.*>', '', tr)
             cand = '<%s as %s>::%s' % (t.split('::')[-1], tr.split('::')[-1], me)
-            if cand in self.alias and not t.startswith('&'):
+            std_t = t.startswith(('std::', 'core::', 'alloc::')) or t.split('::')[-1] in (
+                'Option', 'Result', 'Vec', 'String', 'Rc', 'Box', 'HashMap', 'HashSet', 'BTreeMap', 'RefCell', 'Cell')
+            if cand in self.alias and not t.startswith('&') and not std_t:
                 return self.alias[cand]
         # suffix match on defined names: "a::b::f" defined, callee "b::f"
         if '::' in c and not c.startswith('<'):
@@ -925,7 +1028,7 @@ class Engine:
                     self.statics[fn] = Cell(self.run(fobj, []), 'static')
                 return Ref(self.statics[fn])
             return FnItem(fn)
-        if re.fullmatch(r'[A-Z]\w{0,3}', s) and self.cg_stack and len(self.cg_stack[-1]) == 1:
+        if re.fullmatch(r'[A-Z][0-9]?', s) and self.cg_stack and len(self.cg_stack[-1]) == 1:
             return mkint(self.cg_stack[-1][0], 'usize')
         if re.match(r'^[A-Za-z_<]', s):
             return FnItem(s)
@@ -1367,7 +1470,7 @@ class Engine:
             dm = re.match(r"^<dyn (\w+)(<.*?>)?( \+ .*)? as (\w+)(<.*>)?>::(\w+)$", callee)
             if dm and args:
                 return self.dyn_call(dm.group(4), dm.group(6), args, fr, dty)
-            gm = re.match(r"^<([A-Z]\w{0,2}) as ([\w:]+?)(<.*>)?>::(\w+)(::<.*>)?$", callee)
+            gm = re.match(r"^<([A-Z][0-9]?) as ([\w:]+?)(<.*>)?>::(\w+)(::<.*>)?$", callee)
             if gm and args:
                 # a trait method on a generic type parameter: dispatch on the runtime type of the receiver
                 return self.dyn_call(gm.group(2).split('::')[-1], gm.group(4), args, fr, dty)
@@ -1388,7 +1491,7 @@ class Engine:
             mm = re.fullmatch(r'(\d+)(?:_\w+)?', a)
             if mm:
                 out.append(int(mm.group(1)))
-            elif re.fullmatch(r'[A-Z]\w{0,3}', a) and self.cg_stack and len(self.cg_stack[-1]) == 1:
+            elif re.fullmatch(r'[A-Z][0-9]?', a) and self.cg_stack and len(self.cg_stack[-1]) == 1:
                 out.append(self.cg_stack[-1][0])     # forwarded const generic parameter
         return out or None
 
@@ -1432,7 +1535,9 @@ class Engine:
                 return hook(self, trait, method, args, fr)
             raise Unsupported('dynamic dispatch on %r' % (args[0],))
         key = '<%s as %s>::%s' % (tn, trait, method)
-        name = self.alias.get(key)
+        name = self.find_impl(None, trait, method, args[0], fr)
+        if name is None:
+            name = self.alias.get(key)
         if name is None:
             hook = self.env.get('dyn_call')
             if hook is not None:
